@@ -33,11 +33,20 @@ func (server *GripServer) Submit(ctx context.Context, query *gripql.GraphQuery) 
 	bufsize := 5000 //make this configurable?
 
 	res := pipeline.Start(context.Background(), pipe, man, bufsize, nil, nil)
+	//release the temporary storage of the traversal once the job has consumed its last row
+	out := make(chan gdbi.Traveler, bufsize)
+	go func() {
+		defer close(out)
+		for t := range res {
+			out <- t
+		}
+		man.Cleanup()
+	}()
 	jobID, err := server.jStorage.Spool(query.Graph,
 		&jobstorage.Stream{
 			DataType:  dataType,
 			MarkTypes: markTypes,
-			Pipe:      res,
+			Pipe:      out,
 			Query:     query.Query,
 		})
 	return &gripql.QueryJob{
